@@ -35,7 +35,8 @@ import DigModel.Proofs.DecoCommute
   nodes, through parsing, registration, the verification loop and every roll-back), so a Provide and an adjacent
   Decorate whose decorator takes positional parameters only (its parse adds no graph node) can be swapped — accepted or
   rejected, whatever the scopes and options: the same two answers and the very same container, hence the same
-  outcome of everything that follows.  Swapping two Provides, or a Decorate with value-group parameters, changes node
+  outcome of everything that follows; and so can the creation of a child scope and such a Decorate on an existing scope
+  (`C16_scope_and_decorate_commute_partial`).  Swapping two Provides, or a Decorate with value-group parameters, changes node
   indices and the order of graph holders; that needs a simulation up to a renaming through the whole resolver and is
   not proved.
 -/
@@ -115,6 +116,15 @@ theorem C16_provide_and_decorate_commute_partial (ctx : Ctx) (fP fD : Fn) (st : 
     (apiDecorate ctx fD (apiProvide ctx fP st iP sP o).1 iD sD cb info).2 = (apiDecorate ctx fD st iD sD cb info).2 :=
   provide_decorate_swap_plain ctx fP fD st iP iD sP sD o cb info h
 
+/-- a second slice: **creating a child scope and an adjacent Decorate can be swapped** (the decorator takes positional
+    parameters only and decorates a scope that exists already): the same answer, the very same container — "creating a
+    child scope earlier or later relative to its ancestors' registrations", for decorators -/
+theorem C16_scope_and_decorate_commute_partial (ctx : Ctx) (fD : Fn) (st : St) (parent iD sD : Nat) (cb info : Bool)
+    (hsD : sD < st.scopes.length) (h : ∀ t ∈ (if fD.variadic then fD.ins.dropLast else fD.ins), ∃ i, t = GoT.univ i) :
+    (apiDecorate ctx fD (apiScope st parent) iD sD cb info).1 = apiScope (apiDecorate ctx fD st iD sD cb info).1 parent ∧
+    (apiDecorate ctx fD (apiScope st parent) iD sD cb info).2 = (apiDecorate ctx fD st iD sD cb info).2 :=
+  scope_decorate_swap ctx fD st parent iD sD cb info hsD h
+
 /-- ... because Provide commutes with any replacement of what Decorate registers -/
 theorem C16_provide_ignores_decorators (T : Nat → List (Key × Nat)) (ds : List DecoNode) (ctx : Ctx) (fn : Fn) (st : St)
     (i s : Nat) (o : ProvideOpts) :
@@ -129,6 +139,7 @@ example : ∀ t ∈ (if ({ id := 3, name := "d", nonfunc := none, ins := [.univ 
 #print axioms C16_defer_changes_nothing
 #print axioms C16_provide_and_decorate_commute_partial
 #print axioms C16_provide_ignores_decorators
+#print axioms C16_scope_and_decorate_commute_partial
 #print axioms C16_eager_always_acyclic
 #print axioms C16_resolver_ignores_flags
 #print axioms C16_invoke_checks
